@@ -33,6 +33,7 @@ pub fn run_spec(spec: Spec) -> ! {
     crate::entropy::seed(seed);
     simcore::rt::init(seed);
     simcore::log::keep_lines(spec.trace);
+    simcore::log::echo(std::env::var("SIMH_ECHO").is_ok());
     let seg = match spec.net.seg.as_str() {
         "mixed" => simcore::net::SegLaw::Mixed,
         "dribble" => simcore::net::SegLaw::Dribble,
